@@ -364,6 +364,15 @@ impl Process {
         if let Some(prev) = prev {
             task.set_prev(Some(prev.id.clone()));
         }
+        #[cfg(acts_verif)]
+        crate::verif::log(format!(
+            "N {} {} {} {} {}",
+            self.id,
+            task.id,
+            node.id(),
+            node.kind(),
+            task.prev().unwrap_or("-".to_string())
+        ));
         self.push_task(task.clone());
         task
     }
